@@ -63,6 +63,10 @@ def alt_pool(rng):
         'predec_sp': {'type': 'register', 'register': 'sp', 'bytecode': bc(), 'decorator': {'type': 'minus', 'is_prefix': True}},
         'postinc_a': {'type': 'register', 'register': 'a', 'bytecode': bc(), 'decorator': {'type': 'plus', 'is_prefix': False}},
         'rel': {'type': 'relative_address', 'argument': {'size': 8, 'byte_align': True}, 'bytecode': bc()},
+        # numeric forms whose value has to be a valid address (a register name is no more an address than it is a number)
+        'num_va': {'type': 'numeric', 'argument': {'size': 16, 'byte_align': True, 'valid_address': True}, 'bytecode': bc()},
+        'indnum_va': {'type': 'indirect_numeric', 'argument': {'size': 16, 'byte_align': True, 'valid_address': True}, 'bytecode': bc()},
+        'defer_va': {'type': 'deferred_numeric', 'argument': {'size': 16, 'byte_align': True, 'valid_address': True}, 'bytecode': bc()},
         # numeric enumerations (a numeric expression whose value is looked up): one with an argument table only, one with both
         'nenum_arg': {'type': 'numeric_enumeration',
                       'argument': {'size': 8, 'byte_align': True, 'value_dict': {v: 0x80 + v for v in range(0, 18)}}},
@@ -72,7 +76,7 @@ def alt_pool(rng):
     return pool
 
 
-EXPR_LIKE = ('num', 'numbc', 'adr', 'rel', 'nenum_arg', 'nenum_bc')
+EXPR_LIKE = ('num', 'numbc', 'adr', 'rel', 'nenum_arg', 'nenum_bc', 'num_va')
 
 
 def operand_texts(rng):
